@@ -53,6 +53,13 @@ TABLE = [
      "coordinates, the convention of regions_and_shifts()"),
     (("C06",), "jxl_render::util::pad_upsampling", "calls", "FrameFlags::patches", "D46",
      "with patches, extra channels are upsampled in two stages: the padding counts the passes of both"),
+    (("C01", "C17"), "jxl_jbr::JpegBitstreamData::reconstruct", "guarded", "::new <= call:JpegBitstreamData::is_complete", "D50",
+     "the data section is sliced by the lengths the header announces only when all of it has been decompressed"),
+    (("C17",), "jxl_oxide::aux_box::jbrd::Jbrd::data", "calls", "JpegBitstreamData::is_complete", "D50",
+     "the jbrd box is handed out (status Available) only once its data section is complete; the header alone is parsed much earlier"),
+    (("C17",), "jxl_jbr::reconstruct::JpegBitstreamReconstructor::<'_, '_, '_>::process_next", "reads", "do_ycbcr", "seed-C17f",
+     "which frame channel holds a JPEG component's quantisation table depends on the colour model: Y,Cb,Cr are stored as channels "
+     "1,0,2, R,G,B as 0,1,2 - the DQT writer has to look at do_ycbcr (a seeded change made the swap unconditional)"),
     (("C06",), "jxl_render::modular::compute_modular_region", "calls", "::has_palette", "seed-C06e",
      "any Palette transform forces a full-frame Modular decode: implicit delta entries (negative indices) are predicted from neighbours "
      "across group borders even when nb_deltas = 0 (confirmed by reading Palette::inverse_inner; a seeded change narrowed this to delta palettes)"),
